@@ -604,7 +604,8 @@ def run_zygotes(cases, parallel=4):
 def stream_monitor(run, rng, ndocs, nhist, njobs):
     docs, jobs, cases = build_monitor(rng, ndocs, nhist, njobs)
     # the interpreters of one run must all see the same source tree: if /repo is edited meanwhile, run again (once)
-    outs, reruns = stable_batch(lambda: run_zygotes(cases))
+    outs = yield ('jobs', cases)
+    reruns = 0
     by_key, by_layout = {}, {}
     nsteps = 0
     seen = set()
@@ -738,7 +739,7 @@ def stream_cache(run, rng, n):
              {'history': [['get', 4, 0], ['get', 4, 1], ['get', 3, 0], ['get', 3, 0], ['emit', 3, 1]]}]   # failures are cached
     for i in range(n):
         cases.append({'history': gen_cache_history(rng, ['pure', 'pure', 'variants', 'resample'][i % 4])})
-    outs = common.run_impl('impl_c19', 'cache_history', cases, limit=120, chunksize=16)
+    outs = yield ('direct', 'cache_history', cases, 24)
     table = None
     coq, kept = [], []
     for c, (st, o) in zip(cases, outs):
@@ -856,7 +857,8 @@ def stream_names(run, rng, n):
                                                     'direct': {'fn': 'names_case', 'cases': cases}}} for s in range(4)]
     jobs += [{'hashseed': s, 'timeout': 300, 'job': {'docs': [], 'histories': [], 'module_snapshot': False,
                                                      'direct': {'fn': 'font_hashes', 'cases': font_docs}}} for s in range(4)]
-    outs, discarded = stable_batch(lambda: run_zygotes(jobs))
+    outs = yield ('jobs', jobs)
+    discarded = 0
     res = []
     for j, (st, o) in zip(jobs, outs):
         if st != 'ok' or o.get('crashed'):
@@ -934,7 +936,7 @@ def stream_zoom_direct(run, rng, n):
         pts = [[str(Fraction(rng.randint(0, w))), str(Fraction(rng.randint(0, h), rng.choice([1, 2])))] for _ in range(rng.randint(0, 2))]
         cases.append({'zoom': str(z), 'pages': [{'w': str(w), 'h': str(h), 'bleed': bl, 'links': links, 'anchors': pts,
                                                  'bookmarks': [[str(rng.randint(0, w)), str(rng.randint(0, h))]]}]})
-    outs = common.run_impl('impl_c19', 'zoom_direct', cases, limit=60, chunksize=16)
+    outs = yield ('direct', 'zoom_direct', cases, 24)
     coq, kept = [], []
     for c, (st, o) in zip(cases, outs):
         if st != 'ok':
@@ -985,7 +987,8 @@ def stream_zoom_render(run, rng, n):
         d['opts'] = {'pdf_forms': True} if i % 3 == 0 else {}
         d['zooms'] = ZOOMS
         docs.append(d)
-    nboxes, nannots = stream_zoom_render_docs(run, docs)
+    outs = yield ('direct', 'zoom_render', docs, 1)
+    nboxes, nannots = judge_zoom_render(run, docs, outs)
     run.count('zoom-render', len(docs) * len(ZOOMS) * 2, [('doc', i) for i in range(len(docs))], samples=[docs[0]['html'][:400]])
     run.stream_info('zoom-render', page_boxes_compared=nboxes, annotations_compared=nannots, zooms=ZOOMS,
                     rule='documents with bleed/marks, links, forms (pdf_forms), bookmarks, images, SVG rendered at zoom 0.1, 0.5, 1, 2, 3.7, '
@@ -1023,8 +1026,7 @@ def resolve_rest(o):
                 p['rest'] = table[p['rest_id']]
 
 
-def stream_zoom_render_docs(run, docs):
-    outs = common.run_impl('impl_c19', 'zoom_render', docs, limit=240, chunksize=1)
+def judge_zoom_render(run, docs, outs):
     nboxes = nannots = 0
     for d, (st, o) in zip(docs, outs):
         if st != 'ok':
@@ -1103,7 +1105,12 @@ def stream_copy(run, rng, n):
         k = rng.randint(0, 9)
         sel = None if rng.random() < 0.15 else [rng.randrange(k) for _ in range(rng.randint(0, 6))] if k else []
         cases.append({'n': k, 'sel': sel, 'as_iter': rng.random() < 0.3, 'as_tuple': rng.random() < 0.3})
-    outs = common.run_impl('impl_c19', 'copy_direct', cases, limit=30, chunksize=32)
+    docs = []
+    for i in range(max(3, n // 25)):
+        d = gen_doc(rng, nblocks=rng.randint(4, 8))
+        d['sels'] = [[0], [rng.randrange(9)], [rng.randrange(9) for _ in range(rng.randint(0, 4))], list(range(8, -1, -1))]
+        docs.append(d)
+    outs, outs_render = yield [('direct', 'copy_direct', cases, 40), ('direct', 'copy_render', docs, 1)]
     bad = []
     for c, (st, o) in zip(cases, outs):
         want = list(range(c['n'])) if c['sel'] is None else c['sel']        # the model: copy_selects_exactly
@@ -1116,12 +1123,7 @@ def stream_copy(run, rng, n):
         run.fail('Document.copy does not select exactly the given pages', {'stream': 'copy-direct', 'case': c, 'impl': o}, signature='c19:copy-direct')
     run.count('copy-direct', len(cases), [(c['n'], tuple(c['sel']) if c['sel'] is not None else None) for c in cases], samples=[cases[3]])
     # renders
-    docs = []
-    for i in range(max(4, n // 12)):
-        d = gen_doc(rng, nblocks=rng.randint(4, 8))
-        d['sels'] = [[0], [rng.randrange(9)], [rng.randrange(9) for _ in range(rng.randint(0, 4))], list(range(8, -1, -1))]
-        docs.append(d)
-    outs = common.run_impl('impl_c19', 'copy_render', docs, limit=240, chunksize=1)
+    outs = outs_render
     ncopies = 0
     for d, (st, o) in zip(docs, outs):
         if st != 'ok':
@@ -1187,7 +1189,7 @@ def stream_relayout(run, rng, n):
     cases = [{'cross': 100, 'gap': 0, 'lines': [[{'style': None, 'nat': 10, 'pad': 0, 'stretch': True, 'clip': True}],
                                                  [{'style': 20, 'nat': 10, 'pad': 0, 'stretch': False, 'clip': True}]]}]      # the Coq witness
     cases += [gen_flex(rng) for _ in range(n)]
-    outs = common.run_impl('impl_c19', 'relayout_flex', cases, limit=120, chunksize=4)
+    outs, grid_outs = yield [('direct', 'relayout_flex', cases, 3), ('direct', 'relayout_grid', [{'axis': 'x'}, {'axis': 'y'}], 1)]
     coq, kept = [], []
     premise = 0
     for c, (st, o) in zip(cases, outs):
@@ -1228,7 +1230,7 @@ def stream_relayout(run, rng, n):
                              'and heights against layout c and layout (after c) (relayout_judge, Coq, tolerance 1e-9 px)')
     except RuntimeError as exc:
         run.oblige('corr:relayout', False, str(exc))
-    (st1, gx), (st2, gy) = common.run_impl('impl_c19', 'relayout_grid', [{'axis': 'x'}, {'axis': 'y'}], limit=60)
+    (st1, gx), (st2, gy) = grid_outs
     if st1 == 'ok' and st2 == 'ok' and (gx['once'] != gx['twice'] or gy['once'] != gy['twice']):
         report(run, 'a grid laid out twice sizes its auto tracks differently: %s vs %s' % (gx['once'], gx['twice']),
                {'stream': 'relayout', 'grid': [gx, gy]}, 'c19:grid-stretch-writeback-relayout')
@@ -1251,7 +1253,7 @@ PROBES = [
 
 
 def stream_probes(run):
-    outs = common.run_impl('impl_c19', 'probe', [{'name': p[0]} for p in PROBES] + [{'name': 'copy-pdfua'}], limit=120, chunksize=1)
+    outs = yield ('direct', 'probe', [{'name': p[0]} for p in PROBES] + [{'name': 'copy-pdfua'}], 1)
     state = {}
     st, o = outs[-1]      # fixed in 225043d: a copy can be written as PDF/UA, with the pages selected
     if st != 'ok' or o['raises'] or not o.get('copy_ok'):
@@ -1411,7 +1413,8 @@ def stream_reuse(run, rng, n):
     for i, c in enumerate(cases):      # reference: one call, fresh containers, its own copy of a fresh interpreter, another hash seed
         ref = dict(c, ncalls=1)
         jobs.append({'hashseed': (i // per + 1 + i % 3) % 4, 'job': {'docs': [], 'histories': [], 'reuse': [ref]}})
-    outs, discarded = stable_batch(lambda: run_zygotes(jobs))
+    outs = yield ('jobs', jobs)
+    discarded = 0
     results, refs = [], []
     njobs_main = (len(cases) + per - 1) // per
     ok = True
@@ -1466,6 +1469,93 @@ def stream_reuse(run, rng, n):
                          'with a single call in another copy of a fresh interpreter (other hash seed, fresh containers); Coq: args_judge')
 
 
+def _expand(req):
+    """A stream's request -> zygote cases.  ('jobs', cases) as they are; ('direct', fn, cases, chunk): chunks of direct
+    calls spread over the four hash seeds."""
+    if req[0] == 'jobs':
+        return list(req[1])
+    _, fn, cases, chunk = req
+    out = []
+    for n, i in enumerate(range(0, len(cases), chunk)):
+        out.append({'hashseed': n % 4, 'job': {'docs': [], 'histories': [], 'module_snapshot': False,
+                                               'direct': {'fn': fn, 'cases': cases[i:i + chunk]}}})
+    return out
+
+
+def _collect(req, outs):
+    if req[0] == 'jobs':
+        return outs
+    res = []
+    _, fn, cases, chunk = req
+    for n, i in enumerate(range(0, len(cases), chunk)):
+        st, o = outs[n]
+        k = len(cases[i:i + chunk])
+        if st == 'ok' and not o.get('crashed'):
+            res += [tuple(x) for x in o['direct']]
+        else:
+            res += [('exc', {'type': 'InterpreterCrash', 'msg': str(o)[:300], 'site': None})] * k
+    return res
+
+
+def drive(run, gens):
+    """Advance every stream to its request(s), execute ALL requests of a round in one batch of forked interpreters (four
+    imports of weasyprint for the whole round), hand the results back; streams judge in order."""
+    import time
+    seconds = {name: 0.0 for name, _ in gens}
+    pending = {}
+    for name, g in gens:
+        t = time.time()
+        try:
+            pending[name] = next(g)
+        except StopIteration:
+            pass
+        seconds[name] += time.time() - t
+    rounds = discarded_total = 0
+    compute = {name: 0.0 for name, _ in gens}
+    while pending:
+        rounds += 1
+        cases, where = [], {}
+        for name, _ in gens:
+            if name not in pending:
+                continue
+            reqs = pending[name] if isinstance(pending[name], list) else [pending[name]]
+            where[name] = []
+            for r in reqs:
+                z = _expand(r)
+                where[name].append((len(cases), len(z)))
+                cases += z
+        t = time.time()
+        outs, discarded = stable_batch(lambda: run_zygotes(cases))
+        batch_wall = time.time() - t
+        discarded_total += discarded
+        nxt = {}
+        for name, g in gens:
+            if name not in pending:
+                continue
+            reqs = pending[name] if isinstance(pending[name], list) else [pending[name]]
+            parts = []
+            for r, (a, n) in zip(reqs, where[name]):
+                compute[name] += sum((o or {}).get('seconds', 0) for st, o in outs[a:a + n] if st == 'ok' and isinstance(o, dict))
+                parts.append(_collect(r, outs[a:a + n]))
+            t = time.time()
+            try:
+                nxt[name] = g.send(parts if isinstance(pending[name], list) else parts[0])
+            except StopIteration:
+                pass
+            seconds[name] += time.time() - t
+        pending = nxt
+        run.stream_info('driver', **{'round_%d_wall_seconds' % rounds: round(batch_wall, 1), 'round_%d_jobs' % rounds: len(cases)})
+    run.stream_info('driver', rounds=rounds, batches_discarded_because_the_source_tree_changed=discarded_total,
+                    source_tree=repo_state()[:20],
+                    rule='all implementation-side work of a round runs in one batch: one interpreter per PYTHONHASHSEED 0..3 imports '
+                         'weasyprint and forks a copy per job (4 at a time each)')
+    return seconds, compute
+
+
+STREAM_NAMES = {'cache': 'cache-direct', 'names': 'names-direct', 'zoomd': 'zoom-direct', 'zoomr': 'zoom-render', 'copy': 'copy-render',
+                'relayout': 'relayout', 'probes': 'probes', 'reuse': 'reuse', 'monitor': 'monitor'}
+
+
 def check(run):
     import time
     rng = random.Random(run.seed * 7919 + 19)
@@ -1485,7 +1575,7 @@ def check(run):
                         'a copy (fork) of an interpreter that imported weasyprint and rendered nothing stands for a fresh interpreter',
                         'relayout model: row container, cross axis only, box-sizing content-box, no auto margins, min/max-height auto']
     k = 8 if thorough else 1
-    # quick-tier volumes are sized for ~150 core-seconds in total; the thorough tier has 8x the cases
+    # quick-tier volumes are sized for ~120 core-seconds in total; the thorough tier has 8x the cases
     plan = [('cache', lambda: stream_cache(run, rng, 200 * k)),
             ('names', lambda: stream_names(run, rng, 150 * k)),
             ('zoomd', lambda: stream_zoom_direct(run, rng, 120 * k)),
@@ -1495,14 +1585,10 @@ def check(run):
             ('probes', lambda: stream_probes(run)),
             ('reuse', lambda: stream_reuse(run, rng, 38 * k)),
             ('monitor', lambda: stream_monitor(run, rng, 16 * k, 56 * k, 16 * (4 if thorough else 1)))]
-    names = {'cache': 'cache-direct', 'names': 'names-direct', 'zoomd': 'zoom-direct', 'zoomr': 'zoom-render', 'copy': 'copy-render',
-             'relayout': 'relayout', 'probes': 'probes', 'reuse': 'reuse', 'monitor': 'monitor'}
-    for name, fn in plan:
-        if only and name not in only:
-            continue
-        t = time.time()
-        fn()
-        run.stream_info(names[name], seconds=round(time.time() - t, 1))
+    gens = [(name, fn()) for name, fn in plan if not only or name in only]
+    seconds, compute = drive(run, gens)
+    for name, _ in gens:
+        run.stream_info(STREAM_NAMES[name], seconds=round(seconds[name], 1), implementation_seconds_summed_over_jobs=round(compute[name], 1))
 
 
 def _obs_value(obs):
@@ -1559,7 +1645,7 @@ def replay(data):
         print('replay:', s_, o)
         return 1
     if st == 'zoom-render':
-        stream_zoom_render_docs(run, [d['doc']])
+        judge_zoom_render(run, [d['doc']], common.run_impl('impl_c19', 'zoom_render', [d['doc']], limit=240))
         print('replay:', [v['what'][:300] for v in run.violations], [w[:200] for _, w in run.known_hits])
         return 1 if run.violations else 0
     if st in ('copy-direct', 'copy-render'):
